@@ -21,7 +21,10 @@ PROP = Prop(
     effects=effects.state_frame_for('C01', ['lib_guesser/pcfg_grammar.py', 'lib_guesser/priority_queue.py', 'lib_guesser/grammar_io.py']),
     level='proof',
     replay=script_replay('replay/guesser.py'),
-    bounded=[Bounded('C01.bounded.run', 'replay/guesser.py', args=['--fn', 'RUN'],
+    bounded=[Bounded('C01.bounded.det', 'replay/guesser.py', args=['--fn', 'DET'],
+                     bound='12 tie-rich random rulesets quick / 60 thorough, each run to exhaustion in three processes with PYTHONHASHSEED 1, 2, 77',
+                     clause='the emitted sequence is a deterministic function of the ruleset: identical in processes with different string-hash seeds'),
+             Bounded('C01.bounded.run', 'replay/guesser.py', args=['--fn', 'RUN'],
                      bound='60 random rulesets (1-3 base structures incl. duplicates, repeated variable types, tie-rich dyadic probabilities), run to exhaustion',
                      clause='cross-check of the proved clauses on the real classes: order, attached probability == product, heap step (not needed for the proof; '
                             'it keeps the property decided when a changed function falls outside the verifiable subset)'),
